@@ -23,11 +23,11 @@ CLAIMS = {
          "7/C02", "contract postconditions on Condition values (bit-vector theory) over go/ssa VCs"),
  'C03': ("GoError/goError functional contract for all 2^12 trap sets (symbolic bit-vector); err != nil iff trapped-or-system as a postcondition of every single-rounding operation; ErrDecimal delegation contracts; nil-error implies clean ErrDecimal for the composite functions.",
          "7/C03", "contract postconditions relating error result, flags and Context.Traps"),
- 'C04': ("No-panic obligations generated without annotation for every function under contract: nil dereference, index bounds, division by zero, explicit panic unreachable, callee preconditions; loop measures where a measure exists.",
+ 'C04': ("No-panic obligations generated without annotation for every function under contract: nil dereference, index bounds, division by zero, explicit panic unreachable, callee preconditions; a measure for every loop that has one, an error-exit obligation (a pending ErrDecimal error ends the loop) for the loops that multiply through an ErrDecimal; the evidence lists every loop with neither.",
          "7/C04", "automatic safety obligations (class S) and loop variants (class L) over go/ssa"),
- 'C05': ("Every functional contract is proved without any distinctness assumption on same-typed parameters, with postconditions over old() values: the proof covers d==x, d==y, x==y and d==x==y at once.",
+ 'C05': ("Every functional contract is proved without any distinctness assumption on same-typed parameters, with postconditions over old() values: the proof covers d==x, d==y, x==y and d==x==y at once. For every function with a destination (including Sqrt, Cbrt, Exp, Ln, Log10, Pow whose values are unspecified) class D obligations prove non-interference: the destination's old contents are never read, and every read through an operand returns the operand's entry value under every aliasing.",
          "7/C05", "alias-general memory model (field-indexed arrays, no separation assumptions)"),
- 'C06': ("Frame obligations (class F): every pre-existing location outside the assigns set, including the Context, non-destination operands and the global tables, is unchanged at every return; functional postconditions determine the destination from the operands only.",
+ 'C06': ("Frame obligations (class F): every pre-existing location outside the assigns set, including the Context, non-destination operands and the global tables, is unchanged at every return; functional postconditions determine the destination from the operands only; class D obligations: no field of the destination is read before it is written and all of them are written on every nil-error return.",
          "7/C06", "frame obligations with Skolem locations per heap field"),
  'C07': ("'fits the context' is part of the Rounded oracle proved for Round, add, Mul, Quo, Rem, Quantize and inherited by contract at the final round call of the composite functions.",
          "7/C07", "contract postconditions (digit count, adjusted exponent, Etiny bound)"),
@@ -37,9 +37,9 @@ CLAIMS = {
          "7/C09", "contract postconditions; three code branches must each establish the same formula"),
  'C10': ("QuoInteger and Rem contracts (truncated quotient, remainder with the dividend's sign, DivisionImpossible guard) and the division identity as a lemma over the two contracts.",
          "7/C10", "contract postconditions plus a lemma over contracts"),
- 'C15': ("Decimal.Cmp equals the sign of the exact difference on all three code paths (equal exponents, digit-count shortcut, rescaled comparison); CmpTotal against a lexicographic specification; order lemmas over the specification.",
+ 'C15': ("Decimal.Cmp equals the sign of the exact difference on all three code paths (equal exponents, digit-count shortcut, rescaled comparison); CmpTotal against a lexicographic specification; order lemmas over the specification (reflexive, antisymmetric, transitive via a magnitude-rescaling lemma, class order, zero iff identical).",
          "7/C15", "contract postconditions with pow10 lemma hints; order lemmas as pure SMT goals"),
- 'C16': ("Layer 1: the inline fast paths of the BigInt methods proved against value/sign/representation contracts (zero is never negative) with exact wrap-around semantics; slow paths against assumed math/big and unsafe-bridge contracts.",
+ 'C16': ("Layer 1: the inline fast paths of the BigInt methods proved against value/sign/representation contracts (zero is never negative) with exact wrap-around semantics; slow paths and the thin wrappers (bitwise, shifts, Div/Mod/DivMod, GCD, ModInverse, Exp, Sqrt ...) against assumed math/big contracts (uninterpreted operation functions, header-aliasing and negative-zero ghosts) and the unsafe-bridge contracts, the latter exercised by a bounded differential check on every run.",
          "7/C16", "contracts over the concrete representation (two machine words + handle) with 64-bit wrap modelled exactly"),
  'C17': ("Modf functional contract (integ+frac == d, exponent signs, either output nil, outputs may alias the receiver), Int64 with the wrapped cast proved correct, SetInt64/New/SetFinite exact.",
          "7/C17", "contract postconditions incl. loop invariant for the x10 loop"),
